@@ -20,7 +20,7 @@ YOUR TASK: make ONE small source change to the code in your worktree (realistic:
   (3) the property above is violated for SOME input, but only under specific circumstances - it must need something particular to manifest (an unusual input, a construct placed in an unplanned neighbourhood, a multi-step sequence, a particular build configuration such as release vs debug or a cargo feature, two cooperating sites that each look fine alone, a truncation at a particular point ...). Do NOT make a change that ordinary use would expose at once (that is also why the existing tests must keep passing).
 Prefer subtle semantic edits (a dropped guard, a swapped order of two calls, a wrong constant/flag, an off-by-one, a missing bookkeeping call on one rare path, a case missing from a pattern) over crude ones. Do not add new dependencies. Do not edit or delete existing tests/snapshots.
 
-DEMONSTRATION: write a demonstration that FAILS with your change and PASSES without it: normally a new integration test file `crates/sas-lexer/tests/seeded_{name}.rs` using only the public API (`sas_lexer::lex_program`, `LexResult`, `TokenizedBuffer` accessors, `error::ErrorInfo` ...) that asserts the property on one or a few concrete inputs; if the property needs two build configurations or the Python side, a shell script `demo.sh` (taking the repository root as $1, exit 0 = property holds) that builds/runs what is needed and compares is fine (no network; python3 is available but `msgspec`/`maturin` may not be). Verify both directions yourself (use `git stash` or apply/revert your patch) and record the commands and their outcomes.
+DEMONSTRATION: write a demonstration that FAILS with your change and PASSES without it: normally a new integration test file `crates/sas-lexer/tests/seeded_{name}.rs` using only the public API (`sas_lexer::lex_program`, `LexResult`, `TokenizedBuffer` accessors, `error::ErrorInfo` ...) that asserts the property on one or a few concrete inputs; if the property needs two build configurations or the Python side, a shell script `demo.sh` (taking the repository root as $1, exit 0 = property holds) that builds/runs what is needed and compares is fine (no network; python3 is available but `msgspec`/`maturin` may not be). Verify both directions yourself (save your change with `git diff > /tmp/seeded-out/{name}/patch.diff`, then revert / re-apply it with `git apply -R` / `git apply`; do NOT use `git stash`: the stash is shared between all worktrees of the repository and other engineers work in theirs) and record the commands and their outcomes.
 
 DELIVERABLES in /tmp/seeded-out/{name}/ :
   - patch.diff : `git diff` of the source change ONLY (not the demonstration), applicable with `git apply` at the repository root of a pristine checkout;
@@ -37,7 +37,7 @@ for name in sys.argv[1:]:
     done = []
     for d in sorted(glob.glob('/verif/seeded/%s*' % pid)):
         try:
-            done.append(json.load(open(d + '/meta.json')).get('summary', '')[:300])
+            done.append(json.load(open(d + '/meta.json')).get('summary', '')[:400])
         except Exception:
             pass
     txt = common.format(wt='/tmp/wt/' + name, name=name, id=pid, title=p['title'], statement=p['statement'], quant=p['quantifier']['text'])
